@@ -356,7 +356,7 @@ pub fn run(run: &Run) {
     run.assume("unknown frame types inserted on request / session streams exclude every type defined by HTTP/3 (0x00-0x0d), the WT signal and PRIORITY_UPDATE; GOAWAY, MAX_PUSH_ID, CANCEL_PUSH and PRIORITY_UPDATE are inserted on the control stream only");
     prop_search(
         run,
-        Search { check: "insertions-e2e", cases: run.tier.pick(1200, 10000), workers: 8, max_shrink_iters: 80 },
+        Search { check: "insertions-e2e", cases: run.tier.pick(1200, 30000), workers: 8, max_shrink_iters: 80 },
         case_strategy,
         |c| judge(|| exec(c), false, "C13:e2e:hang"),
         |c| serde_json::to_value(c).unwrap(),
